@@ -187,7 +187,7 @@ def run(prop, tier, seed, replay=None):
         if tries % 6 == 5:
             hosts = gen_merge_template(rng)
         else:
-            hosts = gen_hierarchy(rng, 4 if not thorough else 6, allow_latemark=(tries % 10 == 0), rename=(tries % 3 == 1))
+            hosts = gen_hierarchy(rng, 4 if not thorough else 6, allow_latemark=(tries % 2 == 0), rename=(tries % 3 == 1))
         if hosts is None:
             continue
         jobs.append({"id": f"C17-{len(jobs)}", "world": {"parents": ARGPAR, "hosts": hosts, "methods": []}, "args": [1, 2, 3, 4]})
